@@ -2,6 +2,7 @@ package main
 
 import (
 	"fmt"
+	"os"
 	"sort"
 	"time"
 
@@ -13,6 +14,9 @@ func init() { checks["C10"] = c10 }
 func c10(r *core.Run) {
 	bin := r.GoBuild("vchild", "./cmd/vchild")
 	n := uint64(r.Pick(160, 12000))
+	if v := os.Getenv("VERIF_C10_N"); v != "" {
+		fmt.Sscan(v, &n)
+	}
 	passes := r.Pick(2, 6)
 	for pass := 0; pass < passes; pass++ {
 		// the same cases again in fresh processes (fresh hash seeds)
